@@ -14,6 +14,7 @@ import Driver.IsolationD
 import Driver.WsdlD
 import Driver.XsdD
 import Driver.BindD
+import Driver.BindKwD
 /-! Line-protocol driver: one JSON object per stdin line, one per stdout line. -/
 open Lean Driver
 
@@ -45,6 +46,7 @@ def dispatch (j : Json) : R Json := do
   | "xsd.serialize" => xsdSerialize j
   | "bind.call" => bindCall j
   | "bind.denote" => bindDenote j
+  | "bind.kw" => bindKw j
   | _ => throw s!"unknown op {op}"
 
 def handleLine (line : String) : String :=
